@@ -25,11 +25,11 @@
      25 trailing Base 64 data  26 illegal Base 64 data  27 incomplete Base 64 data
      28 generic data has incorrect length
      29 illegal NSEC3 salt  30 NSEC3 salt too long  31 illegal Base 32 data
-     32 short Base 32 input  33 NSEC3 owner hash too long  34 expected Nsec3HashAlgorithm
+     32 short Base 32 input  33 NSEC3 owner hash too long  34 expected Nsec3HashAlgorithm  35 expected Rtype
      99 record type / syntax outside the model *)
 From Coq Require Import NArith List Bool Arith.
 From DV Require Import Base.Outcome Base.Bytes C07.Gen.
-From DV Require C18.Gen C18.Model.
+From DV Require C18.Gen C18.Model C13.Model.
 Import ListNotations.
 Local Open Scope N_scope.
 
@@ -364,6 +364,29 @@ Definition scan_octets (s : sbuf) : outcome (list N * sbuf) :=
     do sw <- write_loop into_octet (fuel_of s) s (start s);
     do s <- next_item (fst sw);
     split_to s (snd sw)
+  end.
+
+(* scan_svcb_octets: like scan_octets, but a quoted token that follows the
+   escaped part without white space is appended (key="value") *)
+Definition scan_svcb_octets (s : sbuf) : outcome (list N * sbuf) :=
+  do _ <- require_token s;
+  do s <- trim_to s (start s);
+  let is_quoted := match scat s with CQuo => true | _ => false end in
+  do sw <- ascii_loop (fuel_of s) s 0;
+  let s := fst sw in
+  match scat s with
+  | CNone =>
+    do w <- (if is_quoted then (match start s with O => Panic 6 | S k => Ok k end) else Ok (start s));
+    do s <- next_item s;
+    split_to s w
+  | _ =>
+    do sw <- write_loop into_octet (fuel_of s) s (start s);
+    do s1 <- next_item (fst sw);
+    if negb (hsp s1) && (match scat s1 with CQuo => true | _ => false end) then
+      do sw2 <- write_loop into_octet (fuel_of s1) s1 (snd sw);
+      do s2 <- next_item (fst sw2);
+      split_to s2 (snd sw2)
+    else split_to s1 (snd sw)
   end.
 
 (* scan_ascii_str(op) *)
@@ -933,7 +956,7 @@ Definition scan_ctr (s : sbuf) : outcome (option N * option N * N * sbuf) :=
 (* record data: the presentation schema of the modelled types as a sequence of
    Scanner calls, result = wire format of the record data *)
 Inductive field := FName | FU16 | FU32 | FTtl | FCharstr | FCharstrEntry | FIpv4
-  | FU8Str (err : N) | FHexEntry | FB64Entry | FU8 | FSalt.
+  | FU8Str (err : N) | FHexEntry | FB64Entry | FU8 | FSalt | FHash | FBitmap.
 
 Definition schema (rtype : N) : option (list field) :=
   if rtype =? 1 then Some [FIpv4]
@@ -942,6 +965,8 @@ Definition schema (rtype : N) : option (list field) :=
   else if (rtype =? 14) || (rtype =? 17) then Some [FName; FName]
   else if rtype =? 61 then Some [FB64Entry]
   else if rtype =? 51 then Some [FU8Str 34; FU8; FU16; FSalt]
+  else if rtype =? 50 then Some [FU8Str 34; FU8; FU16; FSalt; FHash; FBitmap]
+  else if rtype =? 47 then Some [FName; FBitmap]
   else if rtype =? 44 then Some [FU8Str 20; FU8Str 21; FHexEntry]
   else if rtype =? 52 then Some [FU8Str 22; FU8Str 23; FU8Str 24; FHexEntry]
   else if rtype =? 6 then Some [FName; FName; FU32; FTtl; FTtl; FTtl; FTtl]
@@ -951,6 +976,18 @@ Definition schema (rtype : N) : option (list field) :=
   else if rtype =? 33 then Some [FU16; FU16; FU16; FName]
   else if rtype =? 35 then Some [FU16; FU16; FCharstr; FCharstr; FCharstr; FName]
   else None.
+
+(* RtypeBitmap::scan with its value: the types named until the end of the
+   entry, added to the bitmap builder (C13 model of RtypeBitmapBuilder) *)
+Fixpoint scan_bitmap (fuel : nat) (s : sbuf) (bs : list C13.Model.block) : outcome (list N * sbuf) :=
+  match fuel with
+  | O => OutOfFuel
+  | S f =>
+    if is_token (scat s) then
+      do r <- scan_ascii_str (fun str => match rtype_from_str str with Some t => Ok t | None => Err 35 end) s;
+      scan_bitmap f (snd r) (C13.Model.bm_add bs (fst r))
+    else Ok (C13.Model.bm_finalize bs, s)
+  end.
 
 Definition scan_field (origin : option (list N)) (f : field) (s : sbuf) : outcome (list N * sbuf) :=
   match f with
@@ -973,6 +1010,8 @@ Definition scan_field (origin : option (list N)) (f : field) (s : sbuf) : outcom
   | FB64Entry => convert_entry_b64 s
   | FU8 => do r <- scan_uint 255 int_add_checked s; Ok ([fst r], snd r)
   | FSalt => do r <- convert_token_salt s; Ok (N.of_nat (length (fst r)) :: fst r, snd r)
+  | FHash => do r <- convert_token_hash s; Ok (N.of_nat (length (fst r)) :: fst r, snd r)
+  | FBitmap => scan_bitmap (S (length (buf s))) s []
   end.
 
 Fixpoint scan_fields (origin : option (list N)) (fs : list field) (s : sbuf) (acc : list N)
@@ -999,7 +1038,7 @@ Definition scan_rdata (origin : option (list N)) (rtype : N) (s : sbuf) : outcom
    scan_ascii_str with a closure that accepts everything (a closure that
    rejects only ends the scan earlier). *)
 Inductive meth := MName | MOctets | MCharstr | MAscii | MUint (maxv : N) (checked : bool)
-  | MCharstrEntry | MHexEntry | MB64Entry | MWhileAscii | MSaltToken | MHashToken.
+  | MCharstrEntry | MHexEntry | MB64Entry | MWhileAscii | MSaltToken | MHashToken | MWhileSvcb.
 
 (* RtypeBitmap::scan: `while scanner.continues() { Rtype::scan(scanner)? }` *)
 Fixpoint while_ascii (fuel : nat) (s : sbuf) : outcome sbuf :=
@@ -1007,6 +1046,16 @@ Fixpoint while_ascii (fuel : nat) (s : sbuf) : outcome sbuf :=
   | O => OutOfFuel
   | S f => if is_token (scat s)
            then do r <- scan_ascii_str (fun _ => Ok tt) s; while_ascii f (snd r)
+           else Ok s
+  end.
+
+(* SvcParams::scan: `while scanner.continues() { scanner.scan_svcb_octets()?; .. }`
+   (value_from_scan_octets only asks the scanner for an octets builder) *)
+Fixpoint while_svcb (fuel : nat) (s : sbuf) : outcome sbuf :=
+  match fuel with
+  | O => OutOfFuel
+  | S f => if is_token (scat s)
+           then do r <- scan_svcb_octets s; while_svcb f (snd r)
            else Ok s
   end.
 
@@ -1023,6 +1072,7 @@ Definition run_meth (origin : option (list N)) (m : meth) (s : sbuf) : outcome s
   | MWhileAscii => while_ascii (S (length (buf s))) s
   | MSaltToken => do r <- convert_token_salt s; Ok (snd r)
   | MHashToken => do r <- convert_token_hash s; Ok (snd r)
+  | MWhileSvcb => while_svcb (S (length (buf s))) s
   end.
 
 (* the method codes of Gen.type_scans (written by T1 from each type's scan) *)
@@ -1035,7 +1085,8 @@ Definition decode_meth (c : N) : option meth :=
   else if c =? 8 then Some (MUint 4294967295 ttl_add_checked)
   else if c =? 9 then Some MCharstrEntry else if c =? 10 then Some MHexEntry
   else if c =? 11 then Some MB64Entry else if c =? 12 then Some MWhileAscii
-  else if c =? 13 then Some MSaltToken else if c =? 14 then Some MHashToken else None.
+  else if c =? 13 then Some MSaltToken else if c =? 14 then Some MHashToken
+  else if c =? 15 then Some MWhileSvcb else None.
 
 Fixpoint decode_meths (l : list N) : option (list meth) :=
   match l with
@@ -1050,6 +1101,7 @@ Definition field_code (f : field) : N :=
   match f with
   | FName => 1 | FIpv4 => 2 | FCharstr => 3 | FU8Str _ => 4 | FU16 => 6 | FU32 => 7 | FTtl => 8
   | FCharstrEntry => 9 | FHexEntry => 10 | FB64Entry => 11 | FU8 => 5 | FSalt => 13
+  | FHash => 14 | FBitmap => 12
   end.
 
 Fixpoint run_meths (origin : option (list N)) (ms : list meth) (s : sbuf) : outcome sbuf :=
